@@ -27,7 +27,7 @@ var R = hx.NewRecorder("C06", "cases = (server mode gm|auto|tls, client kind gm|
 	"non-trivial = handshake completed with data moved each way, or a forbidden combination that reached the peer's first flight; distinct by hash of the case description")
 
 func TestMain(m *testing.M) {
-	R.Require("ref_peer", "readbuf<record", "mode:gm", "mode:auto", "mode:tls", "suite:e013", "suite:e053", "tls10", "tls11", "tls12", "auth:0", "auth:1", "auth:2", "auth:3", "auth:4",
+	R.Require("interop_suite:c030", "interop_suite:9d", "interop_suite:c02f", "interop_suite:c014", "interop_suite:cca8", "interop_suite:2f", "ref_peer", "readbuf<record", "mode:gm", "mode:auto", "mode:tls", "suite:e013", "suite:e053", "tls10", "tls11", "tls12", "auth:0", "auth:1", "auth:2", "auth:3", "auth:4",
 		"clientcert:untrusted", "clientcert:callback_untrusted", "certsource:callbacks", "stdlib_client", "stdlib_server", "passive_decoder", "payload>16KiB", "fragment==1", "must_fail", "must_succeed")
 	hx.Main(m, R)
 }
@@ -147,6 +147,13 @@ func drawCase(t *rapid.T) hsCase {
 			return out
 		}
 		c.SrvSuites, c.CliSuites = pick("srvsuites"), pick("clisuites")
+		if gen.Uniform(t, "targeted", 2) == 0 {
+			// aim at one suite of the table so that each is negotiated regularly (random lists rarely intersect)
+			ts := tlsSuites[gen.Uniform(t, "target", len(tlsSuites))]
+			c.SrvSuites = append([]uint16{ts.id}, c.SrvSuites...)
+			c.CliSuites = []uint16{ts.id}
+			c.StdCert = map[bool]string{true: "ec", false: "rsa"}[ts.ecdsa]
+		}
 		vr := func(name string) (uint16, uint16) {
 			if gen.Uniform(t, name+"default", 2) == 0 {
 				return 0, 0
@@ -626,6 +633,50 @@ func runWithStd(c hsCase, ccfg, scfg *gmtls.Config, csend, ssend []byte) *stdRes
 	return res
 }
 
+// stdControl runs crypto/tls client against crypto/tls server with the configuration of the case (handshake only).
+func stdControl(c hsCase) bool {
+	p := tlsx.GetPKI()
+	if c.SrvCert != "good" {
+		return false
+	}
+	hub := wire.NewHub()
+	cw, sw := hub.Pipe("client:1", "server:443")
+	v := func(x, def uint16) uint16 {
+		if x == 0 {
+			return def
+		}
+		return x
+	}
+	std := p.RSASrv
+	if c.StdCert == "ec" {
+		std = p.ECSrv
+	}
+	pool := stdx509.NewCertPool()
+	for _, id := range []*tlsx.Ident{p.SM2Root, p.RSARoot, p.ECRoot} {
+		if cc, err := stdx509.ParseCertificate(id.DER); err == nil {
+			pool.AddCert(cc)
+		}
+	}
+	// the gmtls side's defaults differ from crypto/tls's: only explicit lists are comparable
+	if c.SrvSuites == nil || c.CliSuites == nil {
+		return false
+	}
+	ccfg := &stdtls.Config{RootCAs: stdRoots(), ServerName: tlsx.ServerName, Time: tlsx.FixedTime, MinVersion: v(c.CMin, 0x0301), MaxVersion: v(c.CMax, 0x0303),
+		CipherSuites: c.CliSuites, InsecureSkipVerify: c.SkipVerify}
+	if c.ClientCert == "rsa" {
+		ccfg.Certificates = []stdtls.Certificate{{Certificate: [][]byte{p.RSAClient.DER}, PrivateKey: p.RSAClient.Key}}
+	}
+	scfg := &stdtls.Config{Certificates: []stdtls.Certificate{{Certificate: [][]byte{std.DER}, PrivateKey: std.Key}}, Time: tlsx.FixedTime,
+		MinVersion: v(c.SMin, 0x0301), MaxVersion: v(c.SMax, 0x0303), CipherSuites: c.SrvSuites, ClientAuth: stdtls.ClientAuthType(c.ClientAuth), ClientCAs: pool,
+		SessionTicketsDisabled: !c.Tickets, PreferServerCipherSuites: c.PreferServer}
+	var e1, e2 error
+	cl, sv := stdtls.Client(cw, ccfg), stdtls.Server(sw, scfg)
+	ds := hub.GoAll(func() { e1 = cl.Handshake(); cl.Close() }, func() { e2 = sv.Handshake(); sv.Close() })
+	<-ds[0]
+	<-ds[1]
+	return e1 == nil && e2 == nil
+}
+
 func payload(n int, tag byte) []byte {
 	b := make([]byte, n)
 	gen.Fill(b, uint64(n)*31+uint64(tag))
@@ -689,7 +740,7 @@ func TestC06_Handshakes(t *testing.T) {
 				if !bytes.Equal(r.gm.Received, gmRecvWant) || !bytes.Equal(r.stdRecv, stdRecvWant) {
 					t.Fatalf("data corrupted between gmtls and crypto/tls: gmtls got %d/%d bytes, crypto/tls got %d/%d (io errs %v / %v)\n%s", len(r.gm.Received), len(gmRecvWant), len(r.stdRecv), len(stdRecvWant), r.gm.IOErr, r.stdErr, desc)
 				}
-				cl = append(cl, fmt.Sprintf("tls%x", r.stdVers&0xff-1+0x10), "interop_ok")
+				cl = append(cl, fmt.Sprintf("tls%x", r.stdVers&0xff-1+0x10), "interop_ok", fmt.Sprintf("interop_suite:%x", r.stdSuite))
 				switch r.stdVers {
 				case 0x0301:
 					cl = append(cl, "tls10")
@@ -698,6 +749,10 @@ func TestC06_Handshakes(t *testing.T) {
 				case 0x0303:
 					cl = append(cl, "tls12")
 				}
+			} else if want == mustSucceed && stdControl(c) {
+				// crypto/tls may have policies of its own: the control replaces the gmtls endpoint by crypto/tls with the
+				// equivalent configuration; if that pair completes, the failure is gmtls's
+				t.Fatalf("a permitted combination FAILED between gmtls and crypto/tls (gmtls hs=%v, crypto/tls err=%v) although crypto/tls in place of the gmtls endpoint completes the same handshake\n%s", r.gm.HSErr, r.stdErr, desc)
 			} else if gmOK != stdOK && want == mustSucceed {
 				// one side completed, the other reported an error: acceptable only if the completing side then failed its I/O
 				if (gmOK && r.gm.IOErr == nil && len(r.gm.Received) > 0) || (stdOK && len(r.stdRecv) > 0 && r.stdErr == nil) {
